@@ -138,7 +138,7 @@ Qed.
 Lemma code_facts :
   srv_incomplete_code = RFC_H3_REQUEST_INCOMPLETE /\ srv_incomplete_reset = Some RFC_H3_REQUEST_INCOMPLETE /\
   srv_malformed_code = RFC_H3_MESSAGE_ERROR /\ cli_malformed_code = RFC_H3_MESSAGE_ERROR /\
-  cli_malformed_stop = Some RFC_H3_REQUEST_CANCELLED /\ cli_toobig_stop = Some RFC_H3_REQUEST_CANCELLED /\
+  cli_malformed_stop = Some RFC_H3_MESSAGE_ERROR /\ cli_toobig_stop = Some RFC_H3_REQUEST_CANCELLED /\
   srv_toobig_status = STATUS_HEADER_FIELDS_TOO_LARGE.
 Proof. repeat split; reflexivity. Qed.
 Lemma store_facts :
